@@ -20,6 +20,7 @@ use std::collections::BTreeSet;
 
 pub fn run_case(ctx: &Ctx, case: u64, ev: &mut Ev) {
     let mut rng = Rng::derive(ctx.seed, "C03", case);
+    rng.big = ctx.tier == crate::Tier::Thorough && rng.chance(0.2);
     match rng.below(10) {
         0..=4 => run_elim(case, &mut rng, ev),
         5..=7 => run_compose(case, &mut rng, ev),
@@ -43,7 +44,7 @@ pub fn tree_with_history(rng: &mut Rng, case: u64, ev: &mut Ev, partial_bias: bo
     let m = 1 + rng.below(3);
     let mut hist = Vec::new();
     let mut cfg = TreeCfg::basic(2, n, m, rg);
-    cfg.max_depth = if rng.chance(0.1) { 5 + rng.below(2) } else { rng.below(4) };
+    cfg.max_depth = if rng.big || rng.chance(0.1) { 5 + rng.below(2) } else { rng.below(4) };
     cfg.allow_leaf_root = true;
     cfg.p_missing = if partial_bias || rng.chance(0.4) { 0.3 } else { 0.0 };
     cfg.p_contra = if rng.chance(0.6) { 0.5 } else { 0.0 };
@@ -52,7 +53,7 @@ pub fn tree_with_history(rng: &mut Rng, case: u64, ev: &mut Ev, partial_bias: bo
     let scr = rng.chance(0.4);
     let mut t = gen::build::<2>(&sp, rng, scr);
     hist.push(format!("spec tree depth<={} missing={} contra={} regime={}", cfg.max_depth, cfg.p_missing, cfg.p_contra, rg.name()));
-    let steps = rng.below(4);
+    let steps = rng.below(if rng.big { 6 } else { 4 });
     let mut out_dim = m;
     for _ in 0..steps {
         if t.len() > 150 {
